@@ -34,6 +34,11 @@ def convert_to_cpm(
             cpm = 1.0e6*cpm
             return torch.t(cpm)
 
+    if data.dtype == np.float16:
+        # half precision cannot hold 10**6 (nor the total of a
+        # cell with more than 65504 counts)
+        data = data.astype(np.float64)
+
     row_sums = np.sum(data, axis=1)
     denom = np.where(row_sums > 0.0, row_sums, 1.)
     cpm = data.transpose()/denom
